@@ -247,7 +247,7 @@ class Build:
             elif "Must be of type" in msg or "not optional" in msg:
                 res = ("RT",)
             else:
-                res = ("EXC", "ValidationError:" + msg[:60])
+                res = ("R?",)       # a ValidationError whose wording is not recognised: still a rejection of the value
             net, mp = None, None
             if before is not None and len(ctx[-1].networks) == before + 1:
                 net = ctx[-1].networks[-1]
@@ -285,7 +285,7 @@ def oracle_model(ctx, case, b, ext):
         if a is None:
             continue
         if a[0] == "b" or (a[0] == "d" and a[1] < 1):
-            if o["res"][0] not in ("RD", "RT"):
+            if o["res"][0] not in ("RD", "RT", "R?"):
                 got = "accepted" if o["res"][0] == "V" else o["res"][1]
                 ctx.fail(dict(case, net=o["net"], value=(a[1] if a[0] == "d" else BAD_VALUES[a[1]][0])), got,
                          "ValidationError", where="rejects-bad-dims")
@@ -437,7 +437,7 @@ class Run:
                         ctx.diff(c, o["seed"], seed, op="map-seed")
                 r = o["res"]
                 if r[0] != "V":
-                    if r[0] != res:
+                    if r[0] != res and not (r[0] == "R?" and res in ("RD", "RT")):
                         ctx.diff(c, list(r), res, op="result")
                     continue
                 v = r[1]
